@@ -30,8 +30,14 @@ def dcop_for(inst, ext):
     return dcop, doms
 
 
+def falsy_doms(inst):
+    """concrete domain values that include falsy ones (0, the empty string) - never at the position they would index"""
+    return {v: ([5, 0, 9, 2] if i % 2 == 0 else ["R", "", "B", "A"])[:inst["dsize"][v]] for i, v in enumerate(inst["vars"])}
+
+
 def execute(case):
-    inst = case["inst"]
+    inst = dict(case["inst"])
+    inst["doms"] = falsy_doms(inst)
     if case["op"] == "sol":
         dcop, doms = dcop_for(inst, case["ext"] or None)
         asg = {v: doms[v][i - 1] for v, i in (case["asg"] or {}).items()}
@@ -50,10 +56,16 @@ def execute(case):
     dcop, doms = build_dcop(inst)
     cons = [dcop.constraints[inst["cons"][i - 1]["name"]] for i in case["cs"]]
     asg = {v: doms[v][i - 1] for v, i in (case["asg"] or {}).items()}
-    got = assignment_cost(asg, cons, consider_variable_cost=case["withvars"])
-    if not num_eq(got, case["exp"]["v"][1]):
-        return "assignment_cost(%s, %s, variable costs %s) = %r, expected %r" % (
-            asg, [c.name for c in cons], case["withvars"], got, case["exp"]["v"][1])
+    # as built, and as a deployed computation holds them: every constraint decoded from the wire format on its own, i.e. over
+    # equal but DISTINCT variable objects
+    import json as _json
+    from pydcop.utils.simple_repr import simple_repr, from_repr
+    for how, cs in (("", cons), (" (constraints decoded from their wire representation)",
+                                 [from_repr(_json.loads(_json.dumps(simple_repr(c)))) for c in cons])):
+        got = assignment_cost(asg, cs, consider_variable_cost=case["withvars"])
+        if not num_eq(got, case["exp"]["v"][1]):
+            return "assignment_cost(%s, %s, variable costs %s)%s = %r, expected %r" % (
+                asg, [c.name for c in cs], case["withvars"], how, got, case["exp"]["v"][1])
     return None
 
 
